@@ -72,6 +72,19 @@ def run_game_models(pid, clusters, hashed, primes, U=2, workers=8):
     return states, trans, unsound
 
 
+def protocol_consequence(pid, unsound, tier):
+    """ZkAbacus.tla with a malicious customer whose proofs the merchant judges by the game verdict: ProofSound is what
+    TLC decided for the observed transcript.  Sound: IssuedMatchesLedger / NoDoubleSpend must hold.  Unsound: TLC must
+    exhibit the protocol-level consequence (documentation of the finding; the verdict comes from the real forgery)."""
+    if not unsound:
+        m = tlc_model("MC_ZkAbacus", "MC_ZkAbacus_adv_small.cfg" if tier == "quick" else "MC_ZkAbacus_adv.cfg", workers=8, name=f"mc_{pid}_adv",
+                      must_cover=["AdvInit", "AdvPay"])
+        return m["distinct"], m["generated"], "holds"
+    r1 = tlc("MC_ZkAbacus", "MC_ZkAbacus_adv_unsound.cfg", workers=2, name=f"mc_{pid}_advu")
+    r2 = tlc("MC_ZkAbacus", "MC_ZkAbacus_adv_unsound2.cfg", workers=2, name=f"mc_{pid}_advu2")
+    return r1["distinct"] + r2["distinct"], r1["generated"] + r2["generated"], f"violated: {r1['violated']}, {r2['violated']}"
+
+
 def run_strategies(pid, strategies, seed, tag, jobs=1):
     d = os.path.join(WORK, f"{pid}_run")
     os.makedirs(d, exist_ok=True)
@@ -139,6 +152,8 @@ def check_C01(tier, seed):
     hashed = gs.establish_hashed(obs)
     primes = [5] if tier == "quick" else [3, 5, 7, 11]
     states, trans, unsound = run_game_models("C01", EST_CLUSTERS, hashed, primes)
+    ps, pt, pres = protocol_consequence("C01", unsound, tier)
+    states += ps; trans += pt
     strategies = gs.establish_strategies(hashed, tier)
     events = run_strategies("C01", strategies, seed, "establish")
     forged = [e for e in events if e["accepted"] and not e["truth"]]
@@ -151,7 +166,7 @@ def check_C01(tier, seed):
            "rule": "one evaluation = one establish proof built by the adversarial prover for a strategy of the catalogue (slot x side x lie x {honest-but-lying, unlinked, "
                    "late revealed scalar, simulated T, simulated C}) and submitted to merchant::Config::initialize; distinct = (strategy family, set of violated relations, verdict)",
            "samples": [{"strategy": e["strategy"], "accepted": e["accepted"], "truth": e["truth"], "violated_relations": [k for k, v in e["atoms"].items() if not v]} for e in events[:3] + events[40:43]],
-           "observed_hashed": hashed, "accepted_strategies": acc, "game_primes": primes,
+           "observed_hashed": hashed, "accepted_strategies": acc, "game_primes": primes, "protocol_level_IssuedMatchesLedger_NoDoubleSpend": pres,
            "clusters": [c[0] + ":" + c[1] for c in EST_CLUSTERS], "exhaustive": False,
            "checker_cmd": "tlc MC_Game (Sound Dichotomy Complete per cluster, hashed sets observed) + Trace_Game on adversarial executions"}
     return write_evidence("C01", tier, seed, "model_checking", cov, time.time() - t0, 0,
@@ -193,6 +208,8 @@ def check_C02(tier, seed):
     if not q:
         s3, t3, u3 = run_game_models("C02c", PAY_BAL2, hashed, [5], workers=14)
         states += s3; trans += t3; unsound += u3
+    ps, pt, pres = protocol_consequence("C02", unsound, tier)
+    states += ps; trans += pt
     strategies = gs.pay_strategies(hashed, tier)
     events = run_strategies("C02", strategies, seed, "pay", jobs=8)
     forged = [e for e in events if e["accepted"] and not e["truth"]]
@@ -205,7 +222,7 @@ def check_C02(tier, seed):
                    "{honest-but-lying, unlinked, late revealed scalar, simulated T, simulated C}) and submitted to merchant::Config::allow_payment; "
                    "distinct = (strategy family, set of violated relations, verdict)",
            "samples": [{"strategy": e["strategy"], "accepted": e["accepted"], "truth": e["truth"], "violated_relations": [k for k, v in e["atoms"].items() if not v]} for e in events[:2] + events[8:12]],
-           "observed_hashed": {k: hashed[k] for k in ("rev", "C", "T")}, "unhashed_atoms": hashed["other_unhashed"],
+           "observed_hashed": {k: hashed[k] for k in ("rev", "C", "T")}, "unhashed_atoms": hashed["other_unhashed"], "protocol_level_IssuedMatchesLedger_NoDoubleSpend": pres,
            "accepted_strategies": sum(1 for e in events if e["accepted"]), "exhaustive": False,
            "checker_cmd": "tlc MC_Game (Sound Dichotomy Complete InRange per cluster, hashed sets observed) + Trace_Game on adversarial executions"}
     return write_evidence("C02", tier, seed, "model_checking", cov, time.time() - t0, 0,
